@@ -1,47 +1,137 @@
-"""Per-property configuration: which Verus units and Kani harness sets decide it."""
+"""Per-property configuration: which Verus units and Kani harness sets decide it.
+
+`labels`: obligation-label prefixes that belong to the property (units are shared between
+properties; an obligation is counted only under the properties that list its prefix).
+Kani tags: C = complete (full input domain, no data-dependent loop), B = bounded stand-in (never
+counted as proved)."""
 from kani_run import Harness, KaniSet
 
+TECH = ("contract-based deductive verification: requires/ensures/invariants spliced onto functions extracted "
+        "verbatim from /repo on every run, discharged by Verus/Z3 (unbounded); Kani/CBMC harnesses over the full "
+        "input domain where loop-free; bounded Kani stand-ins labelled bounded")
+
+MASK = ["mask.", "filter."]
+
 PROPS = {}
+
+PROPS["C02"] = dict(
+    level="proof",
+    verus=["c02_anchor", "c02_dispatch"],
+    labels=["C02."] + MASK,
+    kani=[],
+    trusted=["memchr::memmem::find = first occurrence (shim)", "str::starts_with/ends_with(char) byte-level axioms",
+             "the nine per-shape matchers are uninterpreted in the dispatch proof",
+             "regex translation of '*' and '^' (regex crate) is not under contract"],
+    assumptions=["machine integers are modelled exactly by Verus (overflow checked)"],
+    level_text="Verus proves, for all strings, that hostname anchoring holds exactly at label-aligned occurrences (sound and complete), "
+               "that the anchor/regex flag combination selects the matcher the pattern syntax denotes, and the slicing safety and result of the "
+               "remainder-after-hostname helper",
+    level_note="per-shape matcher bodies (closure/iterator based) and regex semantics are outside the contracts; known finding: remainder is taken after the FIRST occurrence of the rule hostname in the URL",
+    design_ref="DESIGN.md section 4, C02",
+)
+
+PROPS["C03"] = dict(
+    level="proof",
+    verus=["c02_dispatch"],
+    labels=["C03."] + MASK,
+    kani=[KaniSet("src/filters/network_matchers.rs", "c03_options.rs", [
+        Harness("c03_options_nodomain", "C03.options.nodomain", "C", "full domain: 2^32 masks x 17 request types x scheme x party; loop-free"),
+        Harness("c03_type_bit", "C03.type_bit", "C", "all 17 request types"),
+        Harness("c03_options_domains", "C03.options.domains", "B", "<=2 source hashes x <=2 included x <=2 excluded over an 8-value hash universe (loop bound 4, unwinding assertions on)"),
+    ]),
+        KaniSet("src/request.rs", "c03_request.rs", [
+            Harness("c03_request_classify", "C03.request.classify", "C", "every (type alias, scheme, party) of the 24-entry alias table x 9 schemes; string loops bounded by the longest literal (unwind 20, unwinding assertions on)"),
+        ])],
+    trusted=["option text -> mask construction in NetworkFilter::parse (closure + macro_rules!) except the blocks under contract",
+             "seahash injectivity for domain hashes"],
+    assumptions=[],
+    level_text="Kani/CBMC proves check_options equal to a reference written from the option semantics for every 32-bit mask, request type, scheme and party "
+               "(loop-free, complete); Verus proves every mask helper against the flag its name denotes; request classification over the alias/scheme tables; domain lists bounded",
+    level_note="domain-list logic is a bounded stand-in; option-text parsing is trusted",
+    design_ref="DESIGN.md section 4, C03",
+)
+
+PROPS["C04"] = dict(
+    level="proof",
+    verus=["c04_partition", "c04_precedence"],
+    labels=["C04."] + MASK,
+    kani=[],
+    trusted=["NetworkFilterList::new/add_filter hold exactly the given rules (C01 units)",
+             "R6: tagged.check(..).or_else(|| filters.check(..)) means 'a tagged hit, else a normal hit'",
+             "rule ids: get_id/get_id_without_badfilter uninterpreted here"],
+    assumptions=["check() returns a rule of the list it probes (index well-formedness, C01)"],
+    level_text="Verus proves that Blocker::new files every surviving rule into exactly the list its category names and drops exactly the badfilter-cancelled ones, "
+               "and that check_parameterised computes matched/important/exception by the documented precedence from the lists' lookup contracts",
+    level_note="monotonicity follows from the matched formula; the or_else expression is a trusted lift",
+    design_ref="DESIGN.md section 4, C04",
+)
+
+PROPS["C06"] = dict(
+    level="proof",
+    verus=["c04_partition"],
+    labels=["C06."] + MASK,
+    kani=[],
+    trusted=["NetworkFilterList::add_filter appends to the rules held (C01 units)", "regex cache (address-keyed) is NOT under contract"],
+    assumptions=[],
+    level_text="Verus proves batch construction and incremental add_filter agree on one category function, that a rejected add leaves every list unchanged, and that filter_exists looks where add_filter stores",
+    level_note="narrow: only the batch-vs-incremental and tag-rebuild clauses; regex caching / elapsed time are not decidable with contracts here",
+    design_ref="DESIGN.md section 4, C06",
+)
+
+PROPS["C07"] = dict(
+    level="proof",
+    verus=["c01_lookup", "c04_partition", "c04_precedence"],
+    labels=["C07.", "C01.check", "C04.check.important", "C04.check.matched", "C04.check.exception", "C04.new.importants", "C04.new.exceptions", "C04.new.tagged", "C04.new.csp"] + MASK,
+    kani=[],
+    trusted=["R6: the filter/clone iterator chain in tags_with_set computes the stated sub-sequence",
+             "enable_tags/disable_tags set algebra (iterator chains) not under contract",
+             "String obeys the hash key model (vstd axiom)"],
+    assumptions=[],
+    level_text="Verus proves the tag test inside check/check_all (a hit is returned iff it matches and its tag is enabled), which lists are probed with the enabled set "
+               "(important, tagged, exception) and that tags_with_set assigns the set and rebuilds the active tagged list",
+    level_note="set algebra of enable/disable is trusted",
+    design_ref="DESIGN.md section 4, C07",
+)
+
+PROPS["C01"] = dict(
+    level="proof",
+    verus=["c01_lookup"],
+    labels=["C01."] + MASK,
+    kani=[],
+    trusted=["per-rule matcher uninterpreted (C02/C03)", "probe sequence of a request (iterator chain) materialised (R5)"],
+    assumptions=["no 64-bit hash collision"],
+    level_text="Verus proves check/check_all return exactly the matching, tag-active rules of the probed buckets",
+    level_note="index completeness of the bucket choice is in progress",
+    design_ref="DESIGN.md section 4, C01",
+)
 
 PROPS["C10"] = dict(
     level="proof",
     verus=["c10_header"],
+    labels=["C10."],
     kani=[],
     trusted=["rmp-serde msgpack decoding (v0::DeserializeFormat::deserialize body)"],
     assumptions=[],
-    explanation="",
     level_text="Verus proves, for byte slices of any length, that the header/version dispatch never indexes out of bounds and maps each header class to the documented error",
     level_note="msgpack decoding (rmp-serde) is trusted; see evidence trusted_base",
+    design_ref="DESIGN.md section 4, C10",
 )
 
 PROPS["C18"] = dict(
     level="proof",
     verus=[],
+    labels=["C18."],
     kani=[KaniSet("src/resources/mod.rs", "c18_perm.rs", [
         Harness("c18_perm_subset", "C18.perm.subset", "C", "all 256x256 pairs; loop over the 8 bit positions fully unwound"),
         Harness("c18_perm_default", "C18.perm.default", "C", "all u8 x u8, loop-free"),
     ])],
     trusted=[],
     assumptions=[],
-    explanation="",
     level_text="Kani/CBMC full-domain proof of the permission subset test over all 256x256 pairs",
     level_note="only the permission predicate so far",
+    design_ref="DESIGN.md section 4, C18",
 )
 
-PROPS["C03"] = dict(
-    level="proof",
-    verus=[],
-    kani=[KaniSet("src/filters/network_matchers.rs", "c03_options.rs", [
-        Harness("c03_options_nodomain", "C03.options.nodomain", "C", "full domain: 2^32 masks x 17 request types x scheme x party; loop-free"),
-        Harness("c03_type_bit", "C03.type_bit", "C", "all 17 request types"),
-        Harness("c03_options_domains", "C03.options.domains", "B", "<=2 source hashes x <=2 included x <=2 excluded over an 8-value hash universe (loop bound 4, unwinding assertions on)"),
-    ]),
-    KaniSet("src/request.rs", "c03_request.rs", [
-        Harness("c03_request_classify", "C03.request.classify", "C", "every (type alias, scheme, party) of the 24-entry alias table x 9 schemes; string loops bounded by the longest literal (unwind 20, unwinding assertions on)"),
-    ])],
-    trusted=[],
-    assumptions=[],
-    explanation="",
-    level_text="x",
-    level_note="x",
-)
+for _p in PROPS.values():
+    _p.setdefault("technique", TECH)
+    _p.setdefault("explanation", "")
